@@ -144,7 +144,7 @@ func (s *serverSocket) onPacket(header *parser.PacketHeader, eventName string, d
 		}
 
 		for _, handler := range s.eventHandlers.getAll(eventName) {
-			s.onEvent(handler, header, decode, sendAck)
+			s.onEvent(eventName, handler, header, decode, sendAck)
 		}
 	case parser.PacketTypeAck, parser.PacketTypeBinaryAck:
 		s.onAck(header, decode)
@@ -163,6 +163,7 @@ func (s *serverSocket) onDisconnect() {
 }
 
 func (s *serverSocket) onEvent(
+	eventName string,
 	handler *eventHandler,
 	header *parser.PacketHeader,
 	decode parser.Decode,
@@ -185,7 +186,7 @@ func (s *serverSocket) onEvent(
 		return
 	}
 
-	err = s.callMiddlewares(values)
+	err = s.callMiddlewares(eventName, values)
 	if err != nil {
 		s.onError(err)
 		return
